@@ -152,6 +152,14 @@ fn gen_rows(rng: &mut Rng, pool: &[char], size: usize, max_homographs: usize, ea
             _ => rows.push(row(&rand_key(rng, pool, 4), indexed)),
         }
     }
+    // the HEADWORD (CSV column 4) is not the key (column 0): a quarter of the rows get a headword that begins with another
+    // character (normalised keys, reading keys of kanji headwords); look-ups go by the key alone
+    for r in rows.iter_mut() {
+        if rng.chance(1, 4) {
+            let h = rand_key(rng, pool, 3);
+            if !h.is_empty() { r.headword = h; }
+        }
+    }
     rows
 }
 
